@@ -329,4 +329,184 @@ theorem mark_spec (g : Grammar) (s : St) (el : Nat) (name : Option String) (hl :
           subst hst0
           exact ⟨st, h, (hl.lk el st h).1 hs0⟩
 
+/-! ### register / pre / post / annotate -/
+
+def ntFree : Option PNode → Bool
+  | none => true
+  | some p => p.func != .nonTerminal
+
+theorem dispatch_ntFree (g : Grammar) (o : Opts) (n : Node) (name : String) :
+    ntFree (dispatch g o n name) = true := by
+  unfold dispatch
+  simp only [apply_ite ntFree]
+  simp [ntFree]
+
+theorem dispatch_not_nt (g : Grammar) (o : Opts) (n : Node) (name : String) (pn : PNode)
+    (h : dispatch g o n name = some pn) : pn.func ≠ .nonTerminal := by
+  have := dispatch_ntFree g o n name
+  rw [h] at this
+  simpa [ntFree] using this
+
+theorem customOf_eq {g : Grammar} {el : Nat} {n : Node} (hg : g[el]? = some n) : customOf g el = n.custom := by
+  unfold customOf; rw [hg]; rfl
+
+theorem setL_setL (s : St) (i j el : Nat) (a b : EState) : setL (setL s i el a) j el b = setL s j el b := by
+  unfold setL
+  simp only [aset_aset]
+
+theorem Pend_not_of_untruthy {g : Grammar} {s : St} {el : Nat} (hl : LInv g s)
+    (h : truthy (customOf g el) = false) : ¬ Pend s el := by
+  rintro ⟨st, hst, he⟩
+  have := ((hl.lk el st hst).2 he).2
+  rw [h] at this; exact absurd this (by simp)
+
+theorem register_spec (g : Grammar) (s : St) (el : Nat) (n : Node) (parent : Option Nat) (index : Nat)
+    (pn : PNode) (hg : g[el]? = some n) (hpn : pn.func ≠ .nonTerminal) (hl : LInv g s) :
+    LInv g (register g s el n parent index pn).2 ∧
+      (∀ u, Pend (register g s el n parent index pn).2 u → Pend s u ∨ u = el) ∧
+      (∀ u, Tgt s u → Tgt (register g s el n parent index pn).2 u) := by
+  obtain ⟨a1, a2, a3⟩ := Step_alloc g s pn (fun h => absurd h hpn) hl
+  let es : EState := { converted := s.heap.length, parent := parent, parentIndex := index, number := s.index + 1 }
+  have hc := customOf_eq hg
+  by_cases ht : truthy n.custom = true
+  · have e : (register g s el n parent index pn).2 =
+        setL (s.alloc pn).2 (s.index + 1) el { es with extract := true, name := n.custom } := by
+      have e0 : (register g s el n parent index pn).2 =
+          markForExtraction g (setL (s.alloc pn).2 (s.index + 1) el es) el n.custom false := by
+        unfold register
+        simp only [ht, if_true]
+        rfl
+      rw [e0, mark_eq g _ el n.custom false es (by simp only [setL]; exact aget_aset_same _ _ _)]
+      have : markName g es el n.custom = n.custom := by
+        unfold markName
+        have : truthy es.name = false := rfl
+        simp only [this, ht, if_true]
+        rfl
+      rw [this]
+      simp only [Bool.false_or, show es.complete = false from rfl, Bool.false_and]
+      exact setL_setL _ _ _ _ _ _
+    rw [e]
+    obtain ⟨b1, b2, b3⟩ := setL_spec g (s.alloc pn).2 (s.index + 1) el
+      { es with extract := true, name := n.custom } a1 (fun _ => rfl)
+      (fun _ => ⟨hc.symm, by rw [hc]; exact ht⟩) (fun _ => rfl)
+    refine ⟨b1, ?_, fun u hu => b3 u (a3 u hu)⟩
+    intro u hu
+    rcases b2 u hu with hh | hh
+    · exact Or.inl (a2 u hh)
+    · exact Or.inr hh.1
+  · have e : (register g s el n parent index pn).2 = setL (s.alloc pn).2 (s.index + 1) el es := by
+      unfold register
+      simp only [ht]
+      rfl
+    rw [e]
+    have hnt : truthy (customOf g el) = false := by rw [hc]; simpa using ht
+    obtain ⟨b1, b2, b3⟩ := setL_spec g (s.alloc pn).2 (s.index + 1) el es a1
+      (fun h => absurd h (by simp [es])) (fun h => absurd h (by simp [es]))
+      (fun h => absurd h (Pend_not_of_untruthy a1 hnt))
+    refine ⟨b1, ?_, fun u hu => b3 u (a3 u hu)⟩
+    intro u hu
+    rcases b2 u hu with hh | hh
+    · exact Or.inl (a2 u hh)
+    · exact Or.inr hh.1
+
+theorem seenOf_named (g : Grammar) (s : St) (el : Nat) (st : EState) (h : seenOf g s el = .named st) :
+    aget s.lookup el = some st ∧ st.name.isSome := by
+  unfold seenOf at h
+  split at h
+  · split at h
+    · split at h
+      · rename_i hst hn
+        simp only [Seen.named.injEq] at h
+        subst h
+        exact ⟨hst, hn⟩
+      · split at h <;> exact absurd h (by simp)
+    · split at h <;> exact absurd h (by simp)
+  · exact absurd h (by simp)
+
+theorem seenOf_inDiagram (g : Grammar) (s : St) (el : Nat) (d : DEntry) (h : seenOf g s el = .inDiagram d) :
+    aget s.diagrams el = some d := by
+  unfold seenOf at h
+  split at h
+  · split at h
+    · split at h
+      · exact absurd h (by simp)
+      · split at h
+        · rename_i hd
+          simp only [Seen.inDiagram.injEq] at h
+          subst h; exact hd
+        · exact absurd h (by simp)
+    · split at h
+      · rename_i hd
+        simp only [Seen.inDiagram.injEq] at h
+        subst h; exact hd
+      · exact absurd h (by simp)
+  · exact absurd h (by simp)
+
+theorem getD_of_eq_custom {a c : Option String} (h : a = c) (ht : truthy c = true) : c = some (a.getD "") := by
+  subst h
+  cases a with
+  | none => simp [truthy] at ht
+  | some x => rfl
+
+theorem pre_ret_spec (g : Grammar) (o : Opts) (el : Nat) (n : Node) (p : Option Nat) (i : Nat)
+    (h : Option String) (s : St) (r : Option Nat) (s' : St) (hg : g[el]? = some n)
+    (hp : pre g o el n p i h s = .ret r s') : Step g s s' := by
+  intro hl
+  unfold pre at hp
+  split at hp
+  · exact absurd hp (by simp)
+  · split at hp
+    · rename_i st hseen
+      obtain ⟨hst, hsome⟩ := seenOf_named g s el st hseen
+      simp only [newNT, Pre.ret.injEq] at hp
+      obtain ⟨_, rfl⟩ := hp
+      obtain ⟨m1, _, m3, m4⟩ := mark_spec g s el h hl (fun st' hst' => by
+        rw [hst] at hst'; simp only [Option.some.injEq] at hst'; subst hst'; exact Or.inl hsome)
+      have hnm := (hl.lk el st hst).2 ((hl.lk el st hst).1 hsome)
+      have htr : truthy st.name = true := by rw [hnm.1]; exact hnm.2
+      obtain ⟨a1, a2, a3⟩ := Step_alloc g (markForExtraction g s el h false)
+        { func := .nonTerminal,
+          text := if truthy st.name then st.name.getD "" else
+            (if truthy h then h.getD "" else if truthy n.custom then n.custom.getD "" else "") }
+        (fun _ => ⟨el, by simp only [htr, if_true]; exact getD_of_eq_custom hnm.1 hnm.2,
+          m3 el (Or.inr ⟨st, hst, (hl.lk el st hst).1 hsome⟩)⟩) m1
+      exact ⟨a1, fun u hu => m4 ⟨st, hst, hsome⟩ u (a2 u hu), fun u hu => a3 u (m3 u hu)⟩
+    · rename_i d hseen
+      have hd := seenOf_inDiagram g s el d hseen
+      simp only [newNT, Pre.ret.injEq] at hp
+      obtain ⟨_, rfl⟩ := hp
+      have hnm := hl.dg el d hd
+      exact Step_alloc g s { func := .nonTerminal, text := d.name.getD "" }
+        (fun _ => ⟨el, getD_of_eq_custom hnm.1 hnm.2, Or.inl ⟨d, hd⟩⟩) hl
+    · unfold preFresh at hp
+      split at hp
+      · simp only [Pre.ret.injEq] at hp
+        obtain ⟨_, rfl⟩ := hp
+        exact Step.refl g s hl
+      · split at hp
+        · simp only [Pre.ret.injEq] at hp
+          obtain ⟨_, rfl⟩ := hp
+          exact Step.refl g s hl
+        · exact absurd hp (by simp)
+
+theorem pre_loop_spec (g : Grammar) (o : Opts) (el : Nat) (n : Node) (p : Option Nat) (i : Nat)
+    (h : Option String) (s : St) (r : Nat) (s' : St) (hg : g[el]? = some n)
+    (hp : pre g o el n p i h s = .loop r s') (hl : LInv g s) :
+    LInv g s' ∧ (∀ u, Pend s' u → Pend s u ∨ u = el) ∧ (∀ u, Tgt s u → Tgt s' u) := by
+  unfold pre at hp
+  split at hp
+  · exact absurd hp (by simp)
+  · split at hp
+    · exact absurd hp (by simp)
+    · exact absurd hp (by simp)
+    · unfold preFresh at hp
+      split at hp
+      · exact absurd hp (by simp)
+      · split at hp
+        · exact absurd hp (by simp)
+        · rename_i pn hd
+          simp only [Pre.loop.injEq] at hp
+          obtain ⟨_, rfl⟩ := hp
+          exact register_spec g s el n p i pn hg (dispatch_not_nt g o n _ pn hd) hl
+
 end PP.Diagram
